@@ -348,8 +348,19 @@ class annotate(object):
         on the function
     """
 
-    def __init__(self, __return_annotation=_util.UNSET, **annotations):
-        self.ret = __return_annotation
+    def __init__(*args, **annotations):
+        # no named parameter of its own: every name, self included, may be
+        # the name of a parameter to annotate
+        if not 1 <= len(args) <= 2:
+            raise TypeError(
+                'annotate() takes at most 1 positional argument '
+                '({0} given)'.format(len(args) - 1))
+        self = args[0]
+        if len(args) == 2:
+            self.ret = args[1]
+        else:
+            self.ret = annotations.pop(
+                '_annotate__return_annotation', _util.UNSET)
         self.annotations = annotations
         self.to_use = set(annotations)
 
